@@ -22,11 +22,26 @@ func TestC16CancelSweep(t *testing.T) {
 	if Tier() == "thorough" {
 		sizes = append(sizes, 1200*KiB, 3*MiB+BlockSize, 4*MiB+1)
 	}
+	// negative "sizes" select small builds whose only damage is reported by the validator itself, not
+	// by the per-block relay: a missing file, a file cut on a block boundary, a missing symlink
+	sizes = append(sizes, -1, -2, -3)
 	for _, sz := range sizes {
-		signed := Tree{"m_mid.bin": &Entry{Kind: KFile, Data: Bytes(uint64(sz), sz)}, "z_after.bin": &Entry{Kind: KFile, Data: Bytes(3, 5000)}}
-		damaged, applied := ApplyFaults(signed, []Fault{{Kind: "flip", Path: "m_mid.bin", Off: sz - 7}})
+		signed := Tree{"m_mid.bin": &Entry{Kind: KFile, Data: Bytes(uint64(sz), max(sz, 0))}, "z_after.bin": &Entry{Kind: KFile, Data: Bytes(3, 5000)}}
+		fault := Fault{Kind: "flip", Path: "m_mid.bin", Off: sz - 7}
+		switch sz {
+		case -1:
+			signed = Tree{"a.bin": &Entry{Kind: KFile, Data: Bytes(1, 70000)}, "gone.bin": &Entry{Kind: KFile, Data: Bytes(2, 100)}}
+			fault = Fault{Kind: "delete", Path: "gone.bin"}
+		case -2:
+			signed = Tree{"a.bin": &Entry{Kind: KFile, Data: Bytes(1, 100)}, "cut.bin": &Entry{Kind: KFile, Data: Bytes(2, 2*BlockSize+5)}}
+			fault = Fault{Kind: "truncate", Path: "cut.bin", N: 2 * BlockSize}
+		case -3:
+			signed = Tree{"a.bin": &Entry{Kind: KFile, Data: Bytes(1, 100)}, "l": &Entry{Kind: KLink, Dest: "a.bin"}}
+			fault = Fault{Kind: "delete", Path: "l"}
+		}
+		damaged, applied := ApplyFaults(signed, []Fault{fault})
 		if len(applied) != 1 {
-			panic(HarnessError{"sweep: flip not applied"})
+			panic(HarnessError{"sweep: fault not applied"})
 		}
 		dir, cleanup := RunDir()
 		si := signTree(signed, filepath.Join(dir, "signed"))
@@ -40,6 +55,13 @@ func TestC16CancelSweep(t *testing.T) {
 			if Tier() == "thorough" {
 				specs = append(specs, SchedSpec{Policy: 4, PickBias: 3}, SchedSpec{Policy: 0, PickBias: 3}, SchedSpec{Policy: 4, PickBias: 2}, SchedSpec{Policy: 1, Seed: 5, PickBias: 1}, SchedSpec{Policy: 2, Seed: 9, PickBias: 0},
 					SchedSpec{Policy: 3, Starve: "pwr.ValidatorContext.Validate", PickBias: 3}, SchedSpec{Policy: 3, Starve: "pwr.ValidatorContext.validate", PickBias: 2}, SchedSpec{Policy: 3, Starve: "main", PickBias: 2})
+			}
+			if sz < 0 {
+				// small builds are cheap: also let the simulator's PRNG decide every select on its own
+				// (the outcome wanted at one select need not be the one wanted at the next)
+				for seed := uint64(1); seed <= 6; seed++ {
+					specs = append(specs, SchedSpec{Policy: 3, Starve: "pwr.ValidatorContext.Validate", PickBias: 1, Seed: seed}, SchedSpec{Policy: 1, PickBias: 1, Seed: seed})
+				}
 			}
 			for _, sp := range specs {
 				total := -1
@@ -72,7 +94,7 @@ func TestC16CancelSweep(t *testing.T) {
 						fired++
 						Ev.Fault("context_cancelled", 1)
 					}
-					what := fmt.Sprintf("%d-byte file with byte %d flipped, consumer %s, policy %d (starve %q) pickbias %d, cancelled at step %d of %d (fired %v)", sz, sz-7, cmode, sp.Policy, sp.Starve, sp.PickBias, cancelAt, total, didCancel)
+					what := fmt.Sprintf("scenario %d (%v), consumer %s, policy %d (starve %q) pickbias %d seed %d, cancelled at step %d of %d (fired %v)", sz, faultStrings(applied), cmode, sp.Policy, sp.Starve, sp.PickBias, sp.Seed, cancelAt, total, didCancel)
 					if s.BudgetExceeded {
 						continue
 					}
